@@ -7,6 +7,13 @@ consecutive indices; a block's id is the index of its first opcode (blocks.Block
 The opcode handlers below mirror rewrite/frame.py (byte_JUMP_FORWARD, _pop_jump_if_false - with the real
 conditions a / Not(a) in place of that file's placeholder); FrameBase.__init__/step/_merge_state_into are the
 code under test.  Needs the typegraph extension only because pytype.blocks imports it.
+
+Loops (extension): jump / conditional-jump targets may also point at the same or an EARLIER position of
+code.order (back edges).  FrameBase executes every block once, in order; a state merged into an already executed
+block is never consumed (Flow/Loop.v, frame_loop_join_exact), so the oracle follows FORWARD edges only: the walk
+stops at the first enabled edge that does not go to a strictly later position.  The frame's final state
+(_states[_FINAL], whose get_locals() is _final_locals) is checked against the exit environments of the NO_NEXT
+blocks (ret and plain jump) on that walk (frame_final_exact).
 """
 import itertools
 
@@ -195,12 +202,67 @@ def run_real(spec, init):
     return entries, None, None, snaps
   states = {k: c18.render_state(v) for k, v in frame._states.items()}  # pylint: disable=protected-access
   fl = tuple((c18.name_id(k), c18.render_var(v)) for k, v in frame._final_locals.items())  # pylint: disable=protected-access
+  fin = frame._states[-1]  # pylint: disable=protected-access
+  if dict(fin.get_locals()) != dict(frame._final_locals):  # pylint: disable=protected-access
+    raise c18.Untranslatable("_final_locals is not the final state's get_locals()")
+  FINAL_SNAPS[(spec, init)] = [({x: c18.state_vals(fin, rho, x) for x in names},
+                                c18.ev(fin._condition, rho))  # pylint: disable=protected-access
+                               for rho in c18.VALUATIONS]
   return entries, states, fl, snaps
 
 
+FINAL_SNAPS = {}     # (spec, init) -> per-valuation (value sets per name, reached) of the frame's final state
+
+
+def forward_walk(spec, init, rho):
+  """The enabled control path from the entry under valuation rho, following forward edges only.
+  Returns (visited: {position: environment on entry}, exits: [environment at a NO_NEXT block's exit])."""
+  n = len(spec)
+  visited = {}
+  exits = []
+  env = dict(init)
+  pos = 0
+  while pos is not None:
+    visited[pos] = dict(env)
+    stores, term = spec[pos]
+    for x, v in stores:
+      env[x] = v
+    if term[0] == "fall":
+      nxt = pos + 1
+    elif term[0] == "jump":
+      exits.append(dict(env))      # JUMP has NO_NEXT: step() merges its state into _FINAL as well
+      nxt = term[1]
+    elif term[0] == "cond":
+      nxt = pos + 1 if rho[term[1]] else term[2]
+    else:
+      exits.append(dict(env))
+      nxt = None
+    pos = nxt if nxt is not None and pos < nxt < n else None
+  return visited, exits
+
+
+def final_oracle(spec, init):
+  """The frame's final state must give each local exactly the values it has at the exits of the forward walk.
+  Returns None or (valuation, 'final', local/'reached', got, want).  Only for frames that ran to the end."""
+  fs = FINAL_SNAPS.get((spec, init))
+  if fs is None:
+    return None
+  for i, rho in enumerate(c18.VALUATIONS):
+    _, exits = forward_walk(spec, init, rho)
+    vals, reached = fs[i]
+    if reached != bool(exits):
+      return (rho, "final", "reached", reached, bool(exits))
+    for x, got in vals.items():
+      want = frozenset(e[x] for e in exits if x in e)
+      if got != want:
+        return (rho, "final", "n%d" % x, sorted(got), sorted(want))
+  return None
+
+
 def path_oracle(spec, init, snaps):
-  """Path enumeration: under each valuation follow the enabled control path from the entry with a concrete
-  environment; every entered block's real entry state must give each local exactly the value it has on that
+  """Path enumeration: under each valuation follow the enabled control path from the entry (forward edges only,
+  see forward_walk; on a forward graph that is the whole path) with a concrete environment; every entered block's
+  real entry state must give each local exactly the value it has on that
   path (nothing when the path does not reach the block) and must be reached exactly when the path gets there.
   Returns None or (valuation, block position, local/'reached', got, want)."""
   n = len(spec)
@@ -208,22 +270,7 @@ def path_oracle(spec, init, snaps):
   # blocks after it are never processed and have nothing to check
   dead = next((p for p in range(n) if snaps[p] is None), n)
   for i, rho in enumerate(c18.VALUATIONS):
-    visited = {}
-    env = dict(init)
-    pos = 0
-    while pos is not None and pos < n:
-      visited[pos] = dict(env)
-      stores, term = spec[pos]
-      for x, v in stores:
-        env[x] = v
-      if term[0] == "fall":
-        pos = pos + 1
-      elif term[0] == "jump":
-        pos = term[1]
-      elif term[0] == "cond":
-        pos = pos + 1 if rho[term[1]] else term[2]
-      else:
-        pos = None
+    visited, _ = forward_walk(spec, init, rho)
     for p in range(min(n, dead + 1)):
       if snaps[p] is None:
         if p in visited:
@@ -275,6 +322,100 @@ def all_reachable(sh):
     if t[0] == "cond":
       reach.add(t[2])
   return True
+
+
+def has_back_edge(sh):
+  return any(t[0] in ("jump", "cond") and t[-1] <= k for k, t in enumerate(sh))
+
+
+def fwd_reachable(sh):
+  """Every block is reached by forward edges from reachable blocks (otherwise the real frame dies with KeyError)."""
+  n = len(sh)
+  reach = {0}
+  for k, t in enumerate(sh):
+    if k not in reach:
+      return False
+    if t[0] in ("fall", "cond") and k + 1 < n:
+      reach.add(k + 1)
+    if t[0] in ("jump", "cond") and t[-1] > k:
+      reach.add(t[-1])
+  return True
+
+
+def cyclic_options(k, n):
+  opts = []
+  if k < n - 1:
+    opts += [("fall",), ("ret",)]
+  else:
+    opts += [("ret",)]
+  for t in range(n):
+    opts.append(("jump", t))
+    if k < n - 1:                 # a conditional jump needs a next opcode
+      for a in COND_ATOMS:
+        opts.append(("cond", a, t))
+  return opts
+
+
+def cyclic_shapes(n):
+  """All terminator assignments for n blocks with at least one back edge (target position <= own position)."""
+  for sh in itertools.product(*[cyclic_options(k, n) for k in range(n)]):
+    if has_back_edge(sh):
+      yield sh
+
+
+def random_cyclic_shape(r, n):
+  while True:
+    sh = tuple(r.choice(cyclic_options(k, n)) for k in range(n))
+    if has_back_edge(sh):
+      return sh
+
+
+# classics with loops: while, while with a break-like second exit, do-while (self loop), nested loops,
+# a block reachable through a back edge only (the real frame dies with KeyError)
+LOOP_CLASSICS = [
+    (((((0, 1),), ("fall",)), ((), ("cond", 0, 3)), (((0, 2),), ("jump", 1)), ((), ("ret",))), ()),
+    (((((0, 1),), ("fall",)), ((), ("cond", 0, 4)), (((0, 2),), ("cond", 1, 4)), (((1, 1),), ("jump", 1)),
+      ((), ("ret",))), ()),
+    (((((0, 1),), ("fall",)), (((0, 2),), ("cond", 0, 1)), ((), ("ret",))), ((1, 2),)),
+    (((((0, 1),), ("fall",)), ((), ("cond", 0, 5)), ((), ("cond", 1, 4)), (((0, 2),), ("jump", 2)),
+      (((1, 1),), ("jump", 1)), ((), ("ret",))), ()),
+    ((((), ("jump", 2)), ((), ("ret",)), ((), ("jump", 1))), ()),
+]
+
+
+def gen_loop_cases(r, thorough):
+  """(spec, init) cases with back edges: every cyclic shape up to 3 blocks, samples of 4 and 5 blocks."""
+  out = list(LOOP_CLASSICS)
+  for n in (1, 2, 3):
+    k = 3 if thorough else (1 if n == 3 else 2)
+    for sh in cyclic_shapes(n):
+      if not fwd_reachable(sh) and r.random() > (0.3 if thorough else 0.1):
+        continue
+      for _ in range(k):
+        out.append((tuple((r.choice(STORE_CHOICES), t) for t in sh), r.choice(INIT_CHOICES)))
+  for n, cnt in ((4, 2500 if thorough else 150), (5, 1200 if thorough else 50)):
+    got = 0
+    tries = 0
+    while got < cnt and tries < 200 * cnt:
+      tries += 1
+      sh = random_cyclic_shape(r, n)
+      if not fwd_reachable(sh) and r.random() > 0.05:
+        continue
+      got += 1
+      out.append((tuple((r.choice(STORE_CHOICES), t) for t in sh), r.choice(INIT_CHOICES)))
+  return out
+
+
+def all_paths_witness():
+  """frame_loop_all_paths_refuted on the real FrameBase: the while loop of Flow/LoopProofs.v (code_while).
+  Under a0 = True the control path B0 B2 B3 B2 reaches the loop header with n0 = 2; the header's real entry state
+  only allows n0 = 1.  Returns (spec string, values of n0 in the header's entry state under a0=True, True if
+  the real frame indeed misses the value 2)."""
+  spec, init = LOOP_CLASSICS[0]
+  _, _, _, snaps = run_real(spec, init)
+  rho_i = len(c18.VALUATIONS) - 1          # all atoms True
+  got = snaps[1][rho_i][0][0]
+  return spec_str(spec, init), sorted(got), 2 not in got and 1 in got
 
 
 def gen_cases(r, thorough):
